@@ -799,7 +799,13 @@ fn schedules_from_bdl(bdl: &Data, id_maps: &IdMaps) -> Result<SchedulesDb, Error
                             .map(|(day, month)| day_of_year(*day, *month)),
                     )
                     .collect();
-                let day_count = end_day.windows(2).map(|t| t[1] - t[0]);
+                let day_count = end_day
+                    .windows(2)
+                    .map(|t| t[1].checked_sub(t[0]))
+                    .collect::<Option<Vec<u32>>>()
+                    .ok_or_else(|| {
+                        format_err!("Horario anual {} con fechas de fin de periodo no crecientes", sch.name)
+                    })?;
 
                 if !(day_count.len() == sch.weeks.len()
                     && day_count.len() == sch.months.len()
